@@ -650,7 +650,7 @@ Proof. exact blk_kernel_correct. Qed.
 Print Assumptions C01_dense_blocked_kernel_correct.
 
 Example C01_dense_blocked_kernel_examples :
-  blk_kernel 16 Z.add 17 3 (fun i j => Z.of_nat (i + j)) (fun i j => Z.of_nat (i * j)) 16 2 = 34 /\
-  blk_kernel 8 (fun _ y => y) 0 5 (fun _ _ => 7) (fun _ _ => 1) 0 0 = 1 /\
-  blk_kernel 2 Z.mul 3 3 (fun i j => Z.of_nat (i + 1)) (fun i j => Z.of_nat (j + 1)) 2 2 = 9.
+  blk_kernel 16%nat Z.add 17%nat 3%nat (fun i j => Z.of_nat (i + j)) (fun i j => Z.of_nat (i * j)) 16%nat 2%nat = 50 /\
+  blk_kernel 8%nat (fun _ y => y) 0%nat 5%nat (fun _ _ => 7) (fun _ _ => 1) 0%nat 0%nat = 1 /\
+  blk_kernel 2%nat Z.mul 3%nat 3%nat (fun i j => Z.of_nat (i + 1)) (fun i j => Z.of_nat (j + 1)) 2%nat 2%nat = 9.
 Proof. repeat split; vm_compute; reflexivity. Qed.
